@@ -623,7 +623,7 @@ def r4_r5(ctx):
                      "Session::encrypt_with_header modifies the packet after authenticating it: %s" % [x[1][:120] for x in flds], loc=b.loc(t.line))
     # wire format vs associated data: Packet::encode sends iv.to_be_bytes() || mask(header.encode()) || message
     pe = facts.one(r"crate::packet::Packet::encode$")
-    eh = facts.one(r"crate::packet::Packet::encrypt_header$")
+    eh = facts.bodies.get("crate::packet::Packet::encrypt_header") or pe
     r4.analysed(pe, eh)
     p = Prov(pe, facts)
     bufl = []
@@ -637,11 +637,13 @@ def r4_r5(ctx):
         ws = writes_into(pe, p, l)
         ws.sort(key=flow_key(pe, ws))
         parts = [F(src[0]) for wb, m, src, wt in ws]
-    r4.check(parts == ["core::num::to_be_bytes(self.iv)", "crate::packet::Packet::encrypt_header(self, dst_id)", "self.message"], "Packet::encode: iv || encrypt_header() || message", "Packet::encode|parts",
+    hdr_part = "crate::packet::Packet::encrypt_header(self, dst_id)" if eh is not pe else "crate::packet::PacketHeader::encode(self.header)"
+    r4.check(parts == ["core::num::to_be_bytes(self.iv)", hdr_part, "self.message"], "Packet::encode: iv || masked header || message", "Packet::encode|parts",
              "Packet::encode writes %s" % parts, loc=pe.loc(pe.line))
     p = Prov(eh, facts)
     ks = [(bi, t) for bi, t in eh.calls() if callee_matches(t, r"StreamCipher::apply_keystream$")]
-    okh = len(ks) == 1 and F(p.operand(ks[0][1].args[1])) == "crate::packet::PacketHeader::encode(self.header)" and F(p.local(0)) == "crate::packet::PacketHeader::encode(self.header)"
+    okh = len(ks) == 1 and F(p.operand(ks[0][1].args[1])) == "crate::packet::PacketHeader::encode(self.header)" and \
+        (F(p.local(0)) == "crate::packet::PacketHeader::encode(self.header)" if eh is not pe else True)
     r4.check(okh, "Packet::encrypt_header: returns mask(self.header.encode())", "Packet::encrypt_header|source", "Packet::encrypt_header does not return the masked header.encode()", loc=eh.loc(eh.line))
     return r4, r5
 
